@@ -90,13 +90,14 @@ class DbAdapter:
         return float(v) if isinstance(d, float) else int(v)
 
     def token(self, p, x):
+        """real value -> the specification's value: 0 for the parameter's default (None / the numeric default), k for k."""
         d = self.pdefs[p - 1].default
         if x is None:
             return 0 if d is None else {"unexpected-none": True}
         if d is not None and x == d:
             return 0
         try:
-            if float(x) == int(x):
+            if float(x) == int(x) and int(x) >= 1:
                 return int(x)
         except (TypeError, ValueError):
             pass
@@ -538,16 +539,17 @@ class _FaultSink(list):
     """The call sink of gen_operator's recording interfaces: every hook of an "f" interface reports here first.  The hook named by
     `plan` fails; every other one changes the reactor state (one more unit on the tracked block parameter)."""
 
-    def __init__(self, block, plan):
+    def __init__(self, o, plan):
         list.__init__(self)
-        self.block, self.plan, self.fired = block, plan, False
+        self.o, self.plan, self.fired = o, plan, False
 
     def append(self, ev):
         list.append(self, ev)
         if self.plan is not None and (ev["e"], ev["i"], ev["rc"], ev["rn"], ev["it"]) == self.plan:
             self.fired = True
             raise InjectedFailure("injected failure at %r" % (self.plan,))
-        self.block.p[PARAMS[0]] = self.block.p[PARAMS[0]] + 1.0
+        block = self.o.r.core[0][0]  # the operator's current reactor (a restart replaces it by the loaded one)
+        block.p[PARAMS[0]] = block.p[PARAMS[0]] + 1.0
 
 
 def _history_settings(steps):
@@ -572,6 +574,28 @@ class RunAdapter:
         self.home = os.getcwd()
 
     def run(self, run):
+        """-> {raised, fired, file}.  A phase-2 record is a restart: the first run (from (0, 0), with the failure crash1 or none)
+        is executed for real in the same working directory, its file becomes the reload file of the second run."""
+        wd = common.workdir("c06run")
+        os.chdir(wd)
+        try:
+            reload_name = None
+            if run.get("phase", 1) == 2:
+                first = self._one(wd, run, 0, 0, run["crash1"], None)
+                src = os.path.join(wd, self.rig.cs.caseTitle + ".h5")
+                if not os.path.exists(src):
+                    return {"raised": first["raised"], "fired": first["fired"],
+                            "file": {"exists": False, "ok": False, "snaps": [], "note": "the first run left no file to restart from"}}
+                reload_name = "first.h5"
+                os.rename(src, os.path.join(wd, reload_name))
+            out = self._one(wd, run, run["sc"], run["sn"], run["crash"], reload_name)
+            out["file"] = self.project_file(wd, self.rig.cs.caseTitle + ".h5")
+            return out
+        finally:
+            os.chdir(self.home)
+            shutil.rmtree(wd, ignore_errors=True)
+
+    def _one(self, wd, run, sc, sn, cr, reload_name):
         from armi.bookkeeping.db.databaseInterface import DatabaseInterface
         from armi.bookkeeping.mainInterface import MainInterface
 
@@ -580,17 +604,14 @@ class RunAdapter:
         ifs = [{"en": True, "bf": False, "rev": role == "main", "dfr": False, "cpl": tight and role == "f", "hlt": False}
                for role in roles]
         st = go.stack_settings(ifs, 0, tight, 1, [False] * len(run["steps"]))
-        st.update({"db": True, "startCycle": run["sc"], "startNode": run["sn"], "loadStyle": "fromInput"})
+        st.update({"db": True, "startCycle": sc, "startNode": sn, "loadStyle": "fromDB" if reload_name else "fromInput",
+                   "reloadDBName": reload_name or ""})
         rig.configure(history=_history_settings(run["steps"]), settings=st)
-        wd = common.workdir("c06run")
-        os.chdir(wd)
         o = rig.new_operator()
         r = rig.r
-        block = r.core[0][0]
-        block.p[PARAMS[0]] = 0.0
-        cr = run["crash"]
+        r.core[0][0].p[PARAMS[0]] = 0.0
         plan = None if cr["e"] == "none" else (cr["e"], cr["i"], cr["c"], cr["n"], cr["it"])
-        sink = _FaultSink(block, plan)
+        sink = _FaultSink(o, plan)
         dbi = None
         for k, role in enumerate(roles, start=1):
             if role == "main":
@@ -600,7 +621,8 @@ class RunAdapter:
                 o.addInterface(dbi)
             else:
                 o.addInterface(go.recorder_class(k, tight)(r, rig.cs, sink, _Env, ifs[k - 1]))
-        rig.reset_time(run["sc"], run["sn"])
+        # a restart begins like any run: reactor from the input at (0, 0); MainInterface.interactBOL moves it to the restart point
+        rig.reset_time(0 if reload_name else sc, 0 if reload_name else sn)
         out = {"raised": None}
         try:
             try:
@@ -611,7 +633,6 @@ class RunAdapter:
             except Exception as ex:  # noqa: BLE001 -- anything else escaping the run is an observation
                 out["raised"] = "%s: %s" % (type(ex).__name__, str(ex)[:200])
             out["fired"] = sink.fired
-            out["file"] = self.project_file(wd, rig.cs.caseTitle + ".h5")
         finally:
             try:
                 if dbi is not None and dbi._db is not None and dbi._db.isOpen():
@@ -619,8 +640,6 @@ class RunAdapter:
                     out.setdefault("notes", []).append("database handle still open after the run")
             finally:
                 o.removeAllInterfaces()
-                os.chdir(self.home)
-                shutil.rmtree(wd, ignore_errors=True)
         return out
 
     def project_file(self, wd, fn):
@@ -657,6 +676,9 @@ def run_key(run, d):
 
     cr = run["crash"]
     field = re.sub(r"\[\d+\]", "", d.split(":")[0]).strip(".").split(".")[0] or "?"
+    if run.get("phase", 1) == 2:
+        return "run:restart-from-%s:%s:%s" % ("aborted" if run["crash1"]["e"] != "none" else "completed",
+                                              "completed" if cr["e"] == "none" else "abort:" + cr["e"], field)
     if cr["e"] == "none":
         return "run:completed:%s" % field
     dbi = run["roles"].index("db") + 1
@@ -664,12 +686,21 @@ def run_key(run, d):
     return "run:abort:%s:%s:%s%s" % (cr["e"], where, field, "" if "main" in run["roles"] else ":no-main")
 
 
-def stratified(runs, k, rng):
-    """A sample of k runs that covers every (event, failing position, stack, coupling) class before repeating one."""
+def run_class(r, fine):
+    cr = r["crash"]
+    dbi = r["roles"].index("db") + 1
+    where = "-" if cr["e"] == "none" else "before" if cr["i"] < dbi else "after"
+    base = (r.get("phase", 1), r["crash1"]["e"] != "none", cr["e"], where, r["tight"])
+    return base + ((cr["i"], len(r["roles"])) if fine else (len(r["roles"]),) if cr["e"] in ("none", "BOL") else ())
+
+
+def stratified(runs, k, rng, fine=False):
+    """A sample of k runs that covers every (phase, event, failing side of the database interface, coupling[, position, stack])
+    class before repeating one."""
     classes = {}
     for r in runs:
         cr = r["crash"]
-        classes.setdefault((cr["e"], cr["i"], len(r["roles"]), r["tight"]), []).append(r)
+        classes.setdefault(run_class(r, fine), []).append(r)
     for v in classes.values():
         rng.shuffle(v)
     out = []
@@ -690,8 +721,11 @@ def run_faults(rep, thorough, seed, rig, fut_emit, max_runs):
         raise tlc.MachineryError("RunWithDb emission printed no run")
     total = len(runs)
     rng = random.Random(seed * 131 + 7)
-    if max_runs and len(runs) > max_runs:
-        runs = stratified(runs, max_runs, rng)
+    n1, n2 = max_runs
+    first = [r for r in runs if r["phase"] == 1]
+    second = [r for r in runs if r["phase"] == 2]
+    runs = (stratified(first, n1, rng, fine=thorough) if len(first) > n1 else first) + \
+           (stratified(second, n2, rng, fine=False) if len(second) > n2 else second)
     ad = RunAdapter(rig)
     nontrivial = 0
     for run in runs:
@@ -704,13 +738,14 @@ def run_faults(rep, thorough, seed, rig, fut_emit, max_runs):
         if d:
             rep.violation(run_key(run, d.replace(".file", "", 1) if d.startswith(".file.") else d),
                           "the file left by a real run differs from RunWithDb for %s failing at %s: %s" % (
-                              json.dumps({k: run[k] for k in ("steps", "sc", "sn", "tight", "roles")}),
+                              json.dumps({k: run[k] for k in ("steps", "sc", "sn", "tight", "roles", "phase", "crash1")}),
                               json.dumps(run["crash"]), d),
                           {"direction": "run", "part": "run", "run": run, "expected": exp, "observed": got, "first_difference": d})
     rep.add_replay("aborted-and-completed-runs", len(runs), nontrivial,
                    "one behaviour = one finished run printed by TLC (cycle history, stack, coupling, the single failure point or "
                    "none, the predicted file) executed as `with o: o.operate()` on a real Operator with MainInterface / "
-                   "DatabaseInterface / two failing-or-mutating interfaces; the .h5 in the working directory is opened with "
+                   "DatabaseInterface / two failing-or-mutating interfaces (phase 2: restarted through loadStyle=fromDB from the file "
+                   "a real first run left, completed or aborted); the .h5 in the working directory is opened with "
                    "Database('r') and compared group by group; non-trivial = the run is aborted by an injected failure "
                    "(%d of the %d printed runs executed)" % (len(runs), total))
     mid = runs[len(runs) // 2]
@@ -768,7 +803,7 @@ def run(rep, tier, seed, parts=("db", "run")):
         if "db" in parts:
             _run_db(rep, thorough, seed, ad, fut["db_emit"])
         if "run" in parts:
-            run_faults(rep, thorough, seed, ad.rig_for_runs(), fut["run_emit"], None if thorough else 48)
+            run_faults(rep, thorough, seed, ad.rig_for_runs(), fut["run_emit"], (600, 150) if thorough else (30, 8))
         if not _SELFTEST:
             res = fut["db_mc"].result()
             rep.add_tlc("exhaustive:DbHistory_mc%s.cfg" % sfx, res)
@@ -778,7 +813,7 @@ def run(rep, tier, seed, parts=("db", "run")):
             res = fut["run_mc"].result()
             rep.add_tlc("exhaustive:RunWithDb_mc%s.cfg" % sfx, res)
             _tlc_verdict(rep, res, "RunWithDb")
-            _nonvacuous(res, ("RCall", "RDbWrite", "RControl", "Fail"), "RunWithDb_mc")
+            _nonvacuous(res, ("RCall", "RDbWrite", "RControl", "Fail", "RNextR"), "RunWithDb_mc")
     finally:
         pool.shutdown(wait=True)
     rep.assume(
@@ -848,3 +883,221 @@ def _run_db(rep, thorough, seed, ad, fut_emit):
                       "recorded history is not a behaviour of DbHistory at event %d (%s): %s" % (
                           k + 1, json.dumps(nxt.get("a")), d or "the call is not enabled / the outcome is not the specified one"),
                       {"direction": "trace", "part": "db", "trace": b["trace"], "matched": k, "mismatch": b.get("mismatch")})
+
+
+# ============================================================================================================
+def replay(payload):
+    """Re-execute one recorded violation on the real code and print the comparison."""
+    direction = payload.get("direction")
+    if direction == "replay":
+        ad = DbAdapter()
+        w = ad.build(payload["root"])
+        try:
+            for a in payload["behaviour"]:
+                ad.apply(w, a)
+            got = ad.project(w, set(HEAVY) | {"sel", "dumpA", "dumpB"})
+            got["err"], got["res"] = w.err, w.res
+        finally:
+            ad.dispose(w)
+        exp = {k: v for k, v in payload["expected"].items() if k in got}
+        d = rp.diff(exp, got)
+        print(json.dumps({"behaviour": payload["behaviour"], "first_difference": d, "expected": exp, "observed": got}, indent=1,
+                         default=str) if d else "no divergence: behaviour conforms")
+        return 1 if d else 0
+    if direction == "run":
+        got = RunAdapter().run(payload["run"])
+        d = rp.diff(payload["expected"], got)
+        print(json.dumps({"run": payload["run"], "first_difference": d, "observed": got}, indent=1, default=str)
+              if d else "no divergence: run conforms")
+        return 1 if d else 0
+    if direction == "trace" and payload.get("trace"):
+        bad, _ = tracecheck.validate("DbHistory_trace", "DbHistory_trace.cfg", DBDIR, [payload["trace"]], timeout=600)
+        print("recorded trace %s by DbHistory_trace%s" % ("REJECTED" if bad else "accepted",
+                                                         (" at event %d" % (bad[0]["matched"] + 1)) if bad else ""))
+        return 1 if bad else 0
+    print("replay of direction=%s: see payload (TLC trace)" % direction)
+    return 0
+
+
+# ------------------------------------------------------------------------------------------------------------
+# binding demonstration
+# ------------------------------------------------------------------------------------------------------------
+class _Sources:
+    """Source-level variants of methods of the anchored classes: a mutant is the method's current source with one textual
+    replacement, compiled in the method's own module namespace.  `base` replacements (the three repairs proposed for the defects
+    this check reports) are applied first when their target text is still present, so that mutants are judged against a tree
+    on which the check is clean."""
+
+    def __init__(self):
+        self.src = {}
+
+    def source(self, cls, name):
+        import inspect
+
+        key = (cls, name)
+        if key not in self.src:
+            self.src[key] = inspect.getsource(cls.__dict__[name])  # indented as in the file (method of a class)
+        return self.src[key]
+
+    def compile(self, cls, name, src):
+        import sys
+
+        ns = sys.modules[cls.__module__].__dict__
+        loc = {}
+        exec(compile("class _Holder:\n" + src, "<c06 variant of %s.%s>" % (cls.__name__, name), "exec"), ns, loc)  # noqa: S102
+        return loc["_Holder"].__dict__[name]
+
+    def rebase(self, cls, name, old, new):
+        src = self.source(cls, name)
+        if old in src:
+            self.src[(cls, name)] = src.replace(old, new)
+            return True
+        return False
+
+    def variant(self, cls, name, old, new):
+        src = self.source(cls, name)
+        if old not in src:
+            raise tlc.MachineryError("selftest: text to mutate not found in %s.%s: %r" % (cls.__name__, name, old))
+        return self.compile(cls, name, src.replace(old, new))
+
+
+def selftest():
+    """In-process mutants of the anchored code; each must be detected by the replay / trace / run comparison."""
+    global _SELFTEST
+    import contextlib
+
+    from harness.report import Report
+    from harness.selftest import patched, run_mutants
+
+    armi_ready()
+    from armi.bookkeeping.db import database as dbmod
+    from armi.bookkeeping.db import databaseInterface as dbimod
+    from armi.operators import operator as opmod
+
+    _SELFTEST = True
+    D, DI, OP = dbmod.Database, dbimod.DatabaseInterface, opmod.Operator
+    S = _Sources()
+    # the three repairs proposed in the report (no-ops on a tree where they are already made)
+    repairs = [
+        (D, "splitDatabase", 'dbOut[offsetGroupName + "/Reactor/cycle"][()] = offsetCycle\n',
+         'dbOut[offsetGroupName + "/Reactor/cycle"][()] = offsetCycle\n'
+         '                dbOut[offsetGroupName].attrs["cycle"] = offsetCycle\n'),
+        (D, "mergeHistory", "if cyc == startCycle and tn == startNode:", "if (cyc, tn) >= (startCycle, startNode):"),
+        (D, "getHistoriesByLocation", "if ancestor == anchorSerialNum and loc in locations\n                ]\n            )",
+         "if ancestor == anchorSerialNum and loc in locations\n                ],\n                dtype=int,\n            )"),
+    ]
+    base = contextlib.ExitStack()
+    for cls, name, old, new in repairs:
+        already = (new in S.source(cls, name))
+        if not already and S.rebase(cls, name, old, new):
+            base.enter_context(patched(cls, name, S.compile(cls, name, S.source(cls, name))))
+            print("note: %s.%s repaired in-process for the self-test (the tree under test still has the reported defect)" % (
+                cls.__name__, name))
+
+    def detector(parts):
+        def detect():
+            rep = Report("C06", "quick", 0)
+            run(rep, "quick", 0, parts=parts)
+            return [v["key"] for v in rep.violations]
+        return detect
+
+    def V(cls, name, old, new):
+        return lambda: patched(cls, name, S.variant(cls, name, old, new))
+
+    def overwrite_group(self, r, statePointName=None):
+        name = dbmod.getH5GroupName(r.p.cycle, r.p.timeNode, statePointName)
+        if name in self.h5db:
+            del self.h5db[name]
+        g = self.h5db.create_group(name, track_order=True)
+        g.attrs["cycle"], g.attrs["timeNode"] = r.p.cycle, r.p.timeNode
+        return g
+
+    def has_step_ignores_label(self, cycle, timeNode, statePointName=""):
+        return dbmod.getH5GroupName(cycle, timeNode) in self.h5db
+
+    def close_keeps_fast_path(self, completedSuccessfully=False):
+        self._openCount = 0
+        if self.h5db is None:
+            return
+        if self._permission == "w":
+            self.h5db.attrs["successfulCompletion"] = completedSuccessfully
+            self.h5db.flush()
+        self.h5db.close()
+        self.h5db = None
+
+    def exit_without_error_hooks(self, exception_type, exception_value, stacktrace):
+        return None
+
+    def error_closes_successful(self):
+        try:
+            self._db.writeToDB(self.r, "error")
+            self._db.close(True)
+        except Exception:  # noqa: BLE001
+            pass
+
+    def error_without_snapshot(self):
+        try:
+            self._db.close(False)
+        except Exception:  # noqa: BLE001
+            pass
+
+    def eol_without_snapshot(self):
+        self.closeDB()
+
+    def eol_closes_unsuccessful(self):
+        self._db.writeToDB(self.r, "EOL")
+        self._db.close(False)
+
+    orig_en = DI.interactEveryNode
+
+    def every_node_skips_first_of_later_cycles(self, cycle, node):
+        if cycle > 0 and node == 0:
+            return
+        orig_en(self, cycle, node)
+
+    db_mutants = [
+        ("writeToDB silently overwrites an existing snapshot", lambda: patched(D, "getH5Group", overwrite_group)),
+        ("hasTimeStep ignores the label", lambda: patched(D, "hasTimeStep", has_step_ignores_label)),
+        ("genTimeSteps lists in reverse name order", V(D, "genTimeSteps", "sorted(self.h5db.keys())", "sorted(self.h5db.keys(), reverse=True)")),
+        ("getHistories pairs values with objects by position, not serial number",
+         V(D, "getHistories", "serialNumsForType = layout.serialNum[layoutIndicesForType].tolist()",
+           "serialNumsForType = sorted(layout.serialNum[layoutIndicesForType].tolist())")),
+        ("getHistories does not substitute the default for an unstored parameter",
+         V(D, "getHistories", "parameters.byNameAndType(paramName, compType).default,", "0.0,")),
+        ("getHistories never appends the live value", V(D, "getHistories", "if cycleNode not in hist:", "if False:")),
+        ("getHistories keeps the first of several snapshots of a step",
+         V(D, "getHistories", "histData[c][paramName][cycle, timeNode] = val", "histData[c][paramName].setdefault((cycle, timeNode), val)")),
+        ("getHistoriesByLocation reads the value of the first object of the type",
+         V(D, "getHistoriesByLocation", "data = dataSet[objectIndicesInData]", "data = dataSet[[0] * len(objectIndicesInData)]")),
+        ("mergeHistory also copies the start step", V(D, "mergeHistory", "if (cyc, tn) >= (startCycle, startNode):", "if (cyc, tn) > (startCycle, startNode):")),
+        ("mergeHistory skips labelled snapshots", V(D, "mergeHistory", "self.h5db.copy(h5ts, h5ts.name)", "if len(h5ts.name) > 7:\n                continue\n            self.h5db.copy(h5ts, h5ts.name)")),
+        ("splitDatabase does not re-base Reactor/cycle",
+         V(D, "splitDatabase", 'dbOut[offsetGroupName + "/Reactor/cycle"][()] = offsetCycle\n', "pass\n")),
+        ("splitDatabase drops the first kept step", V(D, "splitDatabase", "for cycle, node in keepTimeSteps:", "for cycle, node in sorted(keepTimeSteps)[1:] or keepTimeSteps:")),
+        ("close marks every file successful", V(D, "close", 'self.h5db.attrs["successfulCompletion"] = completedSuccessfully', 'self.h5db.attrs["successfulCompletion"] = True')),
+        ("load ignores the label", V(D, "load", "h5group = self.h5db[getH5GroupName(cycle, node, statePointName)]", "h5group = self.h5db[getH5GroupName(cycle, node)] if getH5GroupName(cycle, node) in self.h5db else self.h5db[getH5GroupName(cycle, node, statePointName)]")),
+        ("close leaves the file in the fast path", lambda: patched(D, "close", close_keeps_fast_path)),
+    ]
+    run_mutants_list = [
+        ("Operator.__exit__ does not call interactAllError", lambda: patched(OP, "__exit__", exit_without_error_hooks)),
+        ("interactError closes the database as successful", lambda: patched(DI, "interactError", error_closes_successful)),
+        ("interactError does not write the error snapshot", lambda: patched(DI, "interactError", error_without_snapshot)),
+        ("interactEOL does not write the end-of-life snapshot", lambda: patched(DI, "interactEOL", eol_without_snapshot)),
+        ("interactEOL closes the database as unsuccessful", lambda: patched(DI, "interactEOL", eol_closes_unsuccessful)),
+        ("interactEveryNode skips node 0 of later cycles", lambda: patched(DI, "interactEveryNode", every_node_skips_first_of_later_cycles)),
+        ("close leaves the file in the fast path (runs)", lambda: patched(D, "close", close_keeps_fast_path)),
+        ("prepRestartRun merges one node too many", V(DI, "prepRestartRun", "self._db.mergeHistory(inputDB, startCycle, startNode)", "self._db.mergeHistory(inputDB, startCycle, startNode + 1)")),
+        ("prepRestartRun does not merge the history", V(DI, "prepRestartRun", "self._db.mergeHistory(inputDB, startCycle, startNode)", "pass")),
+        ("writeDBEveryNode writes under the label 'EOL' at the last node", V(DI, "writeDBEveryNode", "self._db.writeToDB(self.r)", "self._db.writeToDB(self.r, 'x' if self.r.p.timeNode else None)")),
+    ]
+    only = os.environ.get("C06_SELFTEST", "")
+    rc = 0
+    try:
+        with base:
+            if only in ("", "db"):
+                rc |= run_mutants(db_mutants, detector(("db",)))
+            if only in ("", "run"):
+                rc |= run_mutants(run_mutants_list, detector(("run",)))
+    finally:
+        _SELFTEST = False
+    return rc
